@@ -611,6 +611,55 @@ def union_summary(fn):
             return g, flt
         return None, None
 
+    def list_sources(name):
+        """a local list built as list(X) / [*X] / [] and then grown by .append(e) / .extend(Y) under optional guards:
+        [('iter', X text) | ('item', e node, guard)] or None"""
+        out = []
+        inited = False
+
+        def walk(stmts, guard):
+            nonlocal inited
+            for st in stmts:
+                if isinstance(st, ast.Assign) and len(st.targets) == 1 and isinstance(st.targets[0], ast.Name) and st.targets[0].id == name:
+                    v = st.value
+                    if inited or guard is not None:
+                        return False
+                    inited = True
+                    if isinstance(v, ast.Call) and dotted(v.func) in ("list", "tuple") and len(v.args) == 1:
+                        out.append(("iter", unparse(v.args[0])))
+                    elif isinstance(v, ast.List) and not v.elts:
+                        pass
+                    elif isinstance(v, ast.List) and all(isinstance(x, ast.Starred) for x in v.elts):
+                        out.extend(("iter", unparse(x.value)) for x in v.elts)
+                    elif isinstance(v, ast.BinOp) and isinstance(v.op, ast.Add):
+                        out.append(("iter", unparse(v.left)))
+                        out.append(("iter", unparse(v.right)))
+                    else:
+                        return False
+                elif isinstance(st, ast.Expr) and isinstance(st.value, ast.Call) and isinstance(st.value.func, ast.Attribute) \
+                        and unparse(st.value.func.value) == name and len(st.value.args) == 1:
+                    if st.value.func.attr == "append":
+                        out.append(("item", st.value.args[0], guard))
+                    elif st.value.func.attr == "extend" and guard is None:
+                        out.append(("iter", unparse(st.value.args[0])))
+                    else:
+                        return False
+                elif isinstance(st, ast.If):
+                    g = unparse(st.test)
+                    if not walk(st.body, g if guard is None else f"{guard} and {g}"):
+                        return False
+                    if not walk(st.orelse, f"not ({g})" if guard is None else f"{guard} and not ({g})"):
+                        return False
+                elif isinstance(st, (ast.For, ast.While, ast.Try, ast.With)):
+                    if any(isinstance(n, ast.Name) and n.id == name and isinstance(n.ctx, ast.Store) for n in ast.walk(st)) or \
+                            any(isinstance(n, ast.Attribute) and unparse(n.value) == name and n.attr in ("append", "extend", "insert", "remove", "pop") for n in ast.walk(st)):
+                        return False
+            return True
+
+        if not walk(body, None) or not inited:
+            return None
+        return out
+
     def ev(e, guard):
         if isinstance(e, ast.Call):
             d = dotted(e.func)
@@ -638,7 +687,20 @@ def union_summary(fn):
                             g, flt = comp(inner, guard)
                             if g is None:
                                 return None
-                            out.add(("each", unparse(g.iter), sub(inner.elt, g.target.id), flt))
+                            srcs = list_sources(g.iter.id) if isinstance(g.iter, ast.Name) else None
+                            if srcs is not None and flt is None:
+                                # the comprehension ranges over a local list assembled from several sources
+                                for src in srcs:
+                                    if src[0] == "iter":
+                                        out.add(("each", src[1], sub(inner.elt, g.target.id), None))
+                                    else:
+                                        one = ast.parse(unparse(inner.elt), mode="eval").body
+                                        for n_ in ast.walk(one):
+                                            if isinstance(n_, ast.Name) and n_.id == g.target.id:
+                                                n_.id = "__ITEM__"
+                                        out.add(("one", unparse(one).replace("__ITEM__", unparse(src[1])), src[2]))
+                            else:
+                                out.add(("each", unparse(g.iter), sub(inner.elt, g.target.id), flt))
                         else:
                             return None
                     else:
